@@ -229,10 +229,15 @@ def gen_case(rng, tier):
             chain_items.append([ck, SP('xref', path=cur)])
             cur = ck
         i2 = s.uid()
-        ckind = rng.choice(['call', 'call', 'eval', 'fstr', 'bindarg', 'eval_nested_fn', 'call_container'])
+        ckind = rng.choice(['call', 'call', 'eval', 'fstr', 'bindarg', 'eval_nested_fn', 'call_container', 'nested_first', 'nested_first'])
         name_expr = cur.split('.')[0] + ''.join(f'["{c}"]' for c in cur.split('.')[1:])
         if ckind == 'call':
             cons = SP('call', func=f'verif_targets.s{i2}', args=L([SP('xref', path=cur)]))
+        elif ckind == 'nested_first':
+            # a sibling argument that opens (and leaves) a gated section of its own *before* the unsafe one is reached
+            first = rng.choice([SP('call', func=f'verif_targets.s{i2}n', args=M([['z', S(1)]])), SP('bind', func=f'verif_targets.s{i2}n', args=M([])),
+                                SP('eval', code='clean_top + 1'), SP('fstr', text='{clean_top}')])
+            cons = SP('call', func=f'verif_targets.s{i2}', args=M([['first', first], ['second', SP('xref', path=cur)]]))
         elif ckind == 'call_container':
             cons = SP('call', func=f'verif_targets.s{i2}', args=M([['whole', SP('xref', path=cur.split('.')[0])]]))
         elif ckind == 'bindarg':
@@ -303,6 +308,7 @@ def gen_case(rng, tier):
         if payload_kind == 'taint' and cons_path:
             i4 = s.uid()
             put(safe1['doc'], (f'cp{j}',), SP('call', func=f'verif_targets.s{i4}', args=L([SP('xref', path=cons_path)])))
+    put(safe1['doc'], ('clean_top',), S(41))
     if rng.random() < 0.5:
         items = safe1['doc']['items']
         rng.shuffle(items)
